@@ -2,7 +2,7 @@ import Holpy.Kernel.BaseLogicSem
 import Holpy.C01.GenAxioms
 /-
 Every axiom of `library/logic_base.json` (as regenerated into `GenAxioms.lean` on every run) is
-well-typed, signature-correct and valid in every finite standard model under every standard
+well-typed (signature-correct) and valid in every finite standard model under every standard
 valuation (`StdBase`).  One lemma per axiom; a changed, added or removed axiom breaks the build.
 -/
 set_option linter.unusedSectionVars false
@@ -253,64 +253,64 @@ end
 /-! ### well-typed, signature-correct, valid -/
 
 theorem exists1_def_good : GoodIn StdBase Gen.ax_exists1_def :=
-  ⟨by decide, by decide, fun _ _ hρ hC _ => exists1_def_valid hρ hC⟩
+  ⟨by decide, fun _ _ hρ hC _ => exists1_def_valid hρ hC⟩
 
 theorem conjI_good : GoodIn StdBase Gen.ax_conjI :=
-  ⟨by decide, by decide, fun _ _ hρ hC _ => conjI_valid hρ hC⟩
+  ⟨by decide, fun _ _ hρ hC _ => conjI_valid hρ hC⟩
 
 theorem conjD1_good : GoodIn StdBase Gen.ax_conjD1 :=
-  ⟨by decide, by decide, fun _ _ hρ hC _ => conjD1_valid hρ hC⟩
+  ⟨by decide, fun _ _ hρ hC _ => conjD1_valid hρ hC⟩
 
 theorem conjD2_good : GoodIn StdBase Gen.ax_conjD2 :=
-  ⟨by decide, by decide, fun _ _ hρ hC _ => conjD2_valid hρ hC⟩
+  ⟨by decide, fun _ _ hρ hC _ => conjD2_valid hρ hC⟩
 
 theorem disjI1_good : GoodIn StdBase Gen.ax_disjI1 :=
-  ⟨by decide, by decide, fun _ _ hρ hC _ => disjI1_valid hρ hC⟩
+  ⟨by decide, fun _ _ hρ hC _ => disjI1_valid hρ hC⟩
 
 theorem disjI2_good : GoodIn StdBase Gen.ax_disjI2 :=
-  ⟨by decide, by decide, fun _ _ hρ hC _ => disjI2_valid hρ hC⟩
+  ⟨by decide, fun _ _ hρ hC _ => disjI2_valid hρ hC⟩
 
 theorem disjE_good : GoodIn StdBase Gen.ax_disjE :=
-  ⟨by decide, by decide, fun _ _ hρ hC _ => disjE_valid hρ hC⟩
+  ⟨by decide, fun _ _ hρ hC _ => disjE_valid hρ hC⟩
 
 theorem negI_good : GoodIn StdBase Gen.ax_negI :=
-  ⟨by decide, by decide, fun _ _ hρ hC _ => negI_valid hρ hC⟩
+  ⟨by decide, fun _ _ hρ hC _ => negI_valid hρ hC⟩
 
 theorem negE_good : GoodIn StdBase Gen.ax_negE :=
-  ⟨by decide, by decide, fun _ _ hρ hC _ => negE_valid hρ hC⟩
+  ⟨by decide, fun _ _ hρ hC _ => negE_valid hρ hC⟩
 
 theorem trueI_good : GoodIn StdBase Gen.ax_trueI :=
-  ⟨by decide, by decide, fun _ _ hρ hC _ => trueI_valid hρ hC⟩
+  ⟨by decide, fun _ _ hρ hC _ => trueI_valid hρ hC⟩
 
 theorem falseE_good : GoodIn StdBase Gen.ax_falseE :=
-  ⟨by decide, by decide, fun _ _ hρ hC _ => falseE_valid hρ hC⟩
+  ⟨by decide, fun _ _ hρ hC _ => falseE_valid hρ hC⟩
 
 theorem exI_good : GoodIn StdBase Gen.ax_exI :=
-  ⟨by decide, by decide, fun _ _ hρ hC _ => exI_valid hρ hC⟩
+  ⟨by decide, fun _ _ hρ hC _ => exI_valid hρ hC⟩
 
 theorem eta_conversion_good : GoodIn StdBase Gen.ax_eta_conversion :=
-  ⟨by decide, by decide, fun _ _ hρ hC _ => eta_conversion_valid hρ hC⟩
+  ⟨by decide, fun _ _ hρ hC _ => eta_conversion_valid hρ hC⟩
 
 theorem exE_good : GoodIn StdBase Gen.ax_exE :=
-  ⟨by decide, by decide, fun _ _ hρ hC _ => exE_valid hρ hC⟩
+  ⟨by decide, fun _ _ hρ hC _ => exE_valid hρ hC⟩
 
 theorem classical_good : GoodIn StdBase Gen.ax_classical :=
-  ⟨by decide, by decide, fun _ _ hρ hC _ => classical_valid hρ hC⟩
+  ⟨by decide, fun _ _ hρ hC _ => classical_valid hρ hC⟩
 
 theorem extension_good : GoodIn StdBase Gen.ax_extension :=
-  ⟨by decide, by decide, fun _ _ hρ hC _ => extension_valid hρ hC⟩
+  ⟨by decide, fun _ _ hρ hC _ => extension_valid hρ hC⟩
 
 theorem if_P_good : GoodIn StdBase Gen.ax_if_P :=
-  ⟨by decide, by decide, fun _ _ hρ hC _ => if_P_valid hρ hC⟩
+  ⟨by decide, fun _ _ hρ hC _ => if_P_valid hρ hC⟩
 
 theorem if_not_P_good : GoodIn StdBase Gen.ax_if_not_P :=
-  ⟨by decide, by decide, fun _ _ hρ hC _ => if_not_P_valid hρ hC⟩
+  ⟨by decide, fun _ _ hρ hC _ => if_not_P_valid hρ hC⟩
 
 theorem some_AX_good : GoodIn StdBase Gen.ax_some_AX :=
-  ⟨by decide, by decide, fun _ _ hρ hC _ => some_AX_valid hρ hC⟩
+  ⟨by decide, fun _ _ hρ hC _ => some_AX_valid hρ hC⟩
 
 theorem the_equality_good : GoodIn StdBase Gen.ax_the_equality :=
-  ⟨by decide, by decide, fun _ _ hρ hC _ => the_equality_valid hρ hC⟩
+  ⟨by decide, fun _ _ hρ hC _ => the_equality_valid hρ hC⟩
 
 /-- the axioms proved valid above, by name -/
 def provedAxioms : List (String × Thm) := [
